@@ -612,6 +612,20 @@ Qed.
 Lemma quiet_err h c e : quiet h (h, [ToConn c (SError e)]).
 Proof. split; [apply same_refl|reflexivity]. Qed.
 
+Lemma quiet_do_sendoffer h c x s i stream : quiet h (do_sendoffer h c x s i stream).
+Proof.
+  unfold do_sendoffer.
+  destruct i as [n|n|k|n]; try (destruct (negb (send_allowed (s_perms s) stream)); [apply quiet_err|apply quiet_ret]).
+  destruct (get_sess h n) as [t|] eqn:Ht; [|destruct (negb (send_allowed (s_perms s) stream)); [apply quiet_err|apply quiet_ret]].
+  destruct (N.eqb_spec (s_backend t) (s_backend s)) as [Hbt|]; cbn [negb]; [|apply quiet_ret].
+  destruct (N.eqb n x); [apply quiet_ret|].
+  destruct (negb (send_allowed (s_perms s) stream)); [apply quiet_err|].
+  cbv zeta. set (r := match s_kind t with KVirtual p _ => p | _ => n end).
+  destruct (get_sess h r) as [rs|] eqn:Hr; [|apply quiet_ret].
+  destruct (is_virtual (s_kind rs)) eqn:Hv; [apply quiet_ret|].
+  destruct (sub_get rs x stream); [now apply quiet_send_irr|apply quiet_start_create].
+Qed.
+
 Lemma quiet_do_media h c sid s to mk stream media : get_sess h sid = Some s ->
   quiet h (do_media h c sid s to mk stream media).
 Proof.
@@ -624,7 +638,7 @@ Proof.
   { destruct (match i with IdPub x => N.eqb x sid | _ => false end); [apply quiet_ret|].
     destruct (negb (same_call h sid s _)); [apply quiet_err|].
     destruct (sub_get s _ stream); [now apply quiet_send_irr|apply quiet_start_create]. }
-  destruct (N.eqb mk 2); [|apply quiet_ret].
+  destruct (is_cand mk); [|destruct (N.eqb mk 3); [apply quiet_do_sendoffer|apply quiet_ret]].
   destruct (match i with IdPub x => N.eqb x sid | _ => false end).
   - destruct (negb (send_allowed (s_perms s) stream)); [apply quiet_err|].
     destruct (aget (s_pubs s) stream); [apply quiet_ret|apply quiet_err].
